@@ -145,7 +145,7 @@ func execC12(t *testing.T, c *sim.Case) *sim.Result {
 						c2.Cfg[k] = v
 					}
 					c2.Cfg["memtable_art"] = (c.CfgInt("memtable_art", 0) + int64(reopens+1)) % 2
-					c2.Cfg["block_cache"] = []int64{0, 1, 64}[(reopens)%3]
+					c2.Cfg["block_cache"] = []int64{0, 64, 4096}[(reopens)%3]
 					w.C = &c2
 				}
 				if err := w.Open(w.Dir); err != nil {
